@@ -280,6 +280,8 @@ def run_call(world, res, step_no, fn, method, faults=None, net=None, hooks=()):
     rec.kinds = dict(ctx.kinds)
     rec.socks_created = ctx.socks
     rec.pieces = ctx.pieces_log
+    if ctx.rx is not None:
+        rec.extra["rx"] = bytes(ctx.rx)
     rec.t1 = world.clock.now
     rec.ev1 = len(world.events)
     world.end_call(ctx)
@@ -297,6 +299,30 @@ def resolve_target(client, path):
         else:
             obj = getattr(obj, p)
     return obj
+
+
+def resolve_refs(j, res):
+    """{"$tok": [step, key-or-null]} -> the cas token an earlier gets-like call returned."""
+    if isinstance(j, dict):
+        if len(j) == 1 and "$tok" in j:
+            step, key = j["$tok"]
+            rec = res.by_step(step)
+            tok = None
+            if rec is not None and rec.outcome == "return":
+                v = rec.value
+                if isinstance(v, tuple) and len(v) == 2:
+                    tok = v[1]
+                elif isinstance(v, dict) and key is not None:
+                    e = v.get(codec.dec(key))
+                    if isinstance(e, tuple) and len(e) == 2:
+                        tok = e[1]
+            if not isinstance(tok, (bytes, str, int)) or isinstance(tok, bool):
+                tok = b"999"
+            return codec.enc(tok)
+        return {k: resolve_refs(v, res) for k, v in j.items()}
+    if isinstance(j, list):
+        return [resolve_refs(x, res) for x in j]
+    return j
 
 
 def execute(scn, hooks=()):
@@ -329,8 +355,9 @@ def execute(scn, hooks=()):
             if t == "call":
                 target = resolve_target(client, st.get("on"))
                 meth = st["m"]
-                args = [codec.dec(a) for a in st.get("a", ())]
-                kwargs = {k: codec.dec(v) for k, v in (st.get("k") or {}).items()}
+                args = [codec.dec(resolve_refs(a, res)) for a in st.get("a", ())]
+                kwargs = {k: codec.dec(resolve_refs(v, res)) for k, v in (st.get("k") or {}).items()}
+                res.extra.setdefault("args", {})[i] = (args, kwargs)
                 if meth == "__getitem__":
                     fn = (lambda tg=target, a=args: tg[a[0]])
                 elif meth == "__setitem__":
@@ -359,6 +386,11 @@ def execute(scn, hooks=()):
                                               for f, ip in st["addrs"]]
             else:
                 raise HarnessError("unknown step type %r" % t)
+            if t != "call":
+                for h in hooks:
+                    f = getattr(h, "on_step", None)
+                    if f is not None:
+                        f(world, res, i, st)
     finally:
         _base.RECV_SIZE = DEFAULT_RECV_SIZE
     _finish(res, scn)
